@@ -445,7 +445,15 @@ func existsPath(fn *ssa.Function, from ssa.Instruction, to ssa.Instruction, avoi
 				}
 			}
 		}
-		for _, sc := range b.Succs {
+		for k, sc := range b.Succs {
+			if len(b.Succs) == 2 && len(b.Instrs) > 0 {
+				// a branch on a constant follows only the live edge
+				if iff, ok := b.Instrs[len(b.Instrs)-1].(*ssa.If); ok {
+					if cb, isC := constBool(iff.Cond); isC && cb != (k == 0) {
+						continue
+					}
+				}
+			}
 			if !seen[sc] {
 				seen[sc] = true
 				st = append(st, sc)
@@ -834,23 +842,24 @@ func unspill(v ssa.Value) ssa.Value {
 		return v
 	}
 	a, ok := u.X.(*ssa.Alloc)
-	if !ok || a.Heap {
+	if !ok {
 		return v
 	}
-	// the alloc must only be stored to and loaded (not captured / address-taken)
-	if refs := a.Referrers(); refs != nil {
-		for _, r := range *refs {
-			switch r := r.(type) {
-			case *ssa.Store:
-				if r.Addr != a {
-					return v
-				}
-			case *ssa.UnOp:
-			case *ssa.DebugRef:
-			default:
-				return v
-			}
+	// the load must be the one feeding a return after `rundefers` (a named result that a
+	// deferred closure captures is still spilled this way; the closure's own assignments
+	// happen on the recover path and are not part of the return statement's value)
+	afterDefers := false
+	for k := instrIndex(u) - 1; k >= 0; k-- {
+		if _, ok := u.Block().Instrs[k].(*ssa.RunDefers); ok {
+			afterDefers = true
+			break
 		}
+		if _, ok := u.Block().Instrs[k].(*ssa.UnOp); !ok {
+			break
+		}
+	}
+	if !afterDefers {
+		return v
 	}
 	b := u.Block()
 	idx := instrIndex(u)
